@@ -83,11 +83,41 @@ def generate(rng, tier):
         if kind == "invalid":
             files[rng.choice(FILES)] = "INVALID"
         doc = rscope(rng, spec, 2, names, p_inc=0.8)
-        cases.append({"spec": spec, "files": files, "doc": doc, "kind": kind})
+        cases.append({"spec": spec, "files": files, "doc": doc, "kind": kind,
+                      "fmt": ["json", "json", "yaml", "xml", "xml-root"][i % 5] if i < 100 else rng.choice(["json", "yaml", "xml", "xml-root"])})
     return cases
 
 
-def _resolve(root, startdir, name, files, path):
+def _fmt(c):
+    """(format name, options) of a case; included files are parsed with the SAME format and options as the document"""
+    f = c.get("fmt", "json")
+    if f == "xml-root":
+        return "xml", {"root_tag": "settings"}
+    return f, {}
+
+
+def _encode(c, tree):
+    name, opts = _fmt(c)
+    if name == "json":
+        return json.dumps(tree).encode()
+    if name == "yaml":
+        import yaml
+        return yaml.safe_dump(tree, sort_keys=False).encode()
+    from cincoconfig.formats.xml import XmlConfigFormat
+    return XmlConfigFormat(**opts).dumps(None, tree)       # the codec itself is C04's; here it only writes test data
+
+
+def _content_of(full, root, files):
+    """the tree a file on disk was written from (files are written by _setup from known trees: no parser needed)"""
+    rel = os.path.relpath(full, root)
+    base = os.path.basename(rel)
+    if rel.startswith("cwd" + os.sep):
+        return {"decoy": base, "a": "decoy-" + base}
+    key = base if base in files else os.path.join("dir2", base)
+    return files[key]
+
+
+def _resolve(root, startdir, name, files, path, fmt="json"):
     """independent re-statement of what `field.include` does before the merge"""
     if isinstance(name, str) and name.startswith("ABS:"):
         name = os.path.join(root, name[4:])
@@ -100,12 +130,12 @@ def _resolve(root, startdir, name, files, path):
         full = os.path.abspath(os.path.expanduser(os.path.join(root, startdir, name)))
     if not os.path.isfile(full):
         return ("err", ("validation", path))
-    with open(full, "rb") as fp:
-        content = fp.read()
-    try:
-        return ("ok", json.loads(content.decode()))
-    except ValueError:
-        return ("err", ("validation", path))
+    content = _content_of(os.path.realpath(full), os.path.realpath(root), files)
+    if content == "INVALID":
+        # json's parse error is a ValueError and is wrapped with the field's path; the XML and YAML parsers raise their own
+        # exception classes, which pass through as they are (the load fails either way, which is what C18 asks)
+        return ("err", ("validation", path)) if fmt == "json" else ("err", "other")
+    return ("ok", content)
 
 
 def _fields(spec, prefix=""):
@@ -130,8 +160,8 @@ def _setup(c):
     root = tempfile.mkdtemp(prefix="verif_inc_")
     os.mkdir(os.path.join(root, "dir2"))
     for fn, content in c["files"].items():
-        with open(os.path.join(root, fn), "w") as fp:
-            fp.write("{ not json" if content == "INVALID" else json.dumps(content))
+        with open(os.path.join(root, fn), "wb") as fp:
+            fp.write(b"{ not a document <" if content == "INVALID" else _encode(c, content))
     # both start directories see f*.json and g*.json under the same relative names
     for fn in ("f1.json", "f2.json"):
         shutil.copy(os.path.join(root, fn), os.path.join(root, "dir2", fn))
@@ -141,8 +171,8 @@ def _setup(c):
     # start directory must never read them (only a field without start directory resolves against the cwd)
     os.mkdir(os.path.join(root, "cwd"))
     for fn in ("f1.json", "f2.json", "g1.json", "g2.json"):
-        with open(os.path.join(root, "cwd", fn), "w") as fp:
-            fp.write(json.dumps({"decoy": fn, "a": "decoy-" + fn}))
+        with open(os.path.join(root, "cwd", fn), "wb") as fp:
+            fp.write(_encode(c, {"decoy": fn, "a": "decoy-" + fn}))
     return root
 
 
@@ -158,7 +188,7 @@ def _table(c, root):
             if any(name == s and type(name) is type(s) for s in seen):
                 continue
             seen.append(name)
-            table.append((fid, name, _resolve(root, sd, name, c["files"], path)))
+            table.append((fid, name, _resolve(root, sd, name, c["files"], path, _fmt(c)[0])))
     return table
 
 
@@ -172,6 +202,8 @@ def _gres(r):
         return "(Ok %s)" % g_map(r[1])
     if r[1] == "os":
         return "(Err EOS)"
+    if r[1] == "other":
+        return "(Err EOtherExn)"
     return "(Err (EValidation %s))" % g_str(r[1][1])
 
 
@@ -226,7 +258,8 @@ def impl(c):
         os.chdir(os.path.join(root, "cwd"))
         try:
             c["_table"] = _table(c, root)
-            cfg.loads(json.dumps(doc).encode(), format="json")
+            fname, fopts = _fmt(c)
+            cfg.loads(_encode(c, doc), format=fname, **fopts)
             d = asdict(cfg)
             # sub-configurations the document never mentions hold only their (None) include defaults
             obs = ("ok", sortd(_prune(c["spec"], _strip(c["spec"], d))))
@@ -237,7 +270,8 @@ def impl(c):
             obs = ("err", "os")
             c["_unchanged"] = asdict(cfg) == before
         except Exception as e:  # noqa
-            obs = ("err", "other:" + type(e).__name__)
+            obs = ("err", "other")
+            c["_unchanged"] = asdict(cfg) == before
         finally:
             os.chdir(cwd)
     finally:
@@ -298,7 +332,7 @@ def oracle(c, obs):
 
 
 def tags(c, obs):
-    return {"kind:" + c["kind"], "result:" + (obs[0] if obs[0] == "ok" else "err-" + (obs[1] if isinstance(obs[1], str) else obs[1][0])),
+    return {"kind:" + c["kind"], "fmt:" + c.get("fmt", "json"), "result:" + (obs[0] if obs[0] == "ok" else "err-" + (obs[1] if isinstance(obs[1], str) else obs[1][0])),
             "spec:%d-%d" % (len(c["spec"]["incs"]), len(c["spec"]["subs"]))}
 
 
